@@ -53,6 +53,13 @@ HISTORIES = {
     # (the messages carry acknowledged flags when the mailbox is renamed / moved)
     "flags-then-rename-inbox": ("basic", [SEL, {"s": A, "op": "store", "set": "1:*", "mode": "+", "flags": "\\Flagged kw"},
                                           {"s": A, "op": "rename", "m": "INBOX", "to": "old"}]),
+    # every message leaves at once (no EXPUNGE of single messages): new messages then reuse the numbers of flagged ones
+    "flags-rename-inbox-append": ("basic", [SEL, {"s": A, "op": "store", "set": "1:*", "mode": "+", "flags": "\\Flagged kw"},
+                                            {"s": A, "op": "rename", "m": "INBOX", "to": "old"}, {"s": A, "op": "append", "m": "INBOX"},
+                                            {"s": A, "op": "append", "m": "INBOX", "flags": "\\Seen"}]),
+    "flags-delete-parent-create-append": ("basic", [{"s": A, "op": "select", "m": "a"}, {"s": A, "op": "store", "set": "1", "mode": "+", "flags": "\\Flagged \\Deleted kw"},
+                                                    {"s": A, "op": "select", "m": "INBOX"}, {"s": A, "op": "delete", "m": "a"}, {"s": A, "op": "create", "m": "a"},
+                                                    {"s": A, "op": "append", "m": "a"}]),
     "flags-then-rename": ("basic", [{"s": A, "op": "select", "m": "a"}, {"s": A, "op": "store", "set": "1", "mode": "+", "flags": "\\Answered kw"},
                                     {"s": A, "op": "rename", "m": "a", "to": "c"}]),
     "flags-then-move": ("basic", [SEL, {"s": A, "op": "store", "set": "1:*", "mode": "+", "flags": "\\Flagged kw"}, {"s": A, "op": "move", "set": "1:2", "dst": "a"}]),
